@@ -144,7 +144,7 @@ def run(pid, tier):
     subsets = [tuple(c) for n in range(len(EXTS) + 1) for c in itertools.combinations(EXTS, n)]
     docs = [("trigger/" + k, v) for k, v in TRIGGER_DOCS.items()]
     md = docspace.model_docs(ctx, tier)
-    step = 60 if tier == "quick" else 6
+    step = 60 if tier == "quick" else 12                 # hash-selected: quick's choice is a subset of thorough's
     import zlib
     docs += [("", t) for t, _r in md if zlib.crc32(t.encode()) % step == 0]
     docs += docgen.documents(150 if tier == "quick" else 1500, seed(), pool=1500)
